@@ -107,6 +107,8 @@ def run_check(prop, P, args):
             else:
                 o["function"] = r["function"]
                 o["hash_changed"] = base.get("hashes", {}).get(r["function"]) != r.get("hash")
+                o["no_fingerprint"] = r.get("hash") is None
+                o["item_kind"] = r.get("kind")
                 failed.append(o)
         fn_summary.append({"function": r["function"], "obligations": len(r["obligations"]), "discharged": n_ok,
                            "seconds": r["seconds"], "ast_hash": r.get("hash")})
@@ -226,10 +228,22 @@ def run_check(prop, P, args):
             violations += 1
             exit_code = 1
         elif unexplained:
-            real = [o for o in unexplained if (o["hash_changed"] or changed_files)
-                    and o["name"] in set(base.get("discharged", []))]
-            new_names = [o for o in unexplained if o["name"] not in set(base.get("discharged", []))
-                         and (o["hash_changed"] or changed_files)]
+            # An obligation that was discharged on the baseline tree and is not any more counts as a violation when the
+            # code it is generated from changed: always when the solver produced a model of the negated goal (`sat`);
+            # for `unknown` only when the item's OWN fingerprint changed (its body or a body inlined into it) - an
+            # `unknown` on an untouched item next to an edited one is a solver budget matter (undecided), and reporting
+            # it would blame the wrong obligation.  Items without a fingerprint (static / effect tables, lemmas) are
+            # decided by evaluation, never by a budget: there any change of the property's files counts.
+            def regressed(o):
+                if o.get("item_kind") == "lemma":
+                    return False        # lemmas do not depend on the code under check
+                if o["hash_changed"]:
+                    return True
+                if not changed_files:
+                    return False
+                return o["status"] == "sat" or o.get("no_fingerprint")
+            real = [o for o in unexplained if regressed(o) and o["name"] in set(base.get("discharged", []))]
+            new_names = [o for o in unexplained if o["name"] not in set(base.get("discharged", [])) and regressed(o)]
             if real or new_names:
                 path = os.path.join(OUT, "replays", "%s_%d.json" % (prop, int(time.time())))
                 rec = {"property": prop, "failed_obligations": [
